@@ -18,7 +18,12 @@ def evaluate(kind, n):
     from vf.gen import grammar as G
     from vf.gen import trivia as T
 
-    nima.reset_state()
+    import threading
+
+    if threading.current_thread() is threading.main_thread():
+        # (never from a worker thread: clearing the library's context registry under the feet of an edit that runs in
+        # another thread is interference by the harness, not behaviour of the library)
+        nima.reset_state()
     try:
         if kind == "rt":
             _a, base, _b = G.program(n)
